@@ -993,6 +993,60 @@ def build_unit(template_path, out_path, report_path, defines=None):
     text = re.sub(r'@@CLAP_RANGE\(([^,]+),([^,]+),([^)]+)\)@@', clap, text)
     report = []
     out = []
+    # //@pin <fn|method|const|struct> <file> <name>        or   //@pin region <file> <fn> /from/ /to/
+    # Text that the unit's stubs / assumed contracts stand for.  Nothing is emitted; the SHA-256 of the
+    # current text is reported and compared with the recorded one by the runner (a changed pin means
+    # "the assumption was written for other text": undecided, never an alarm).
+    pins = []
+    def pin(m):
+        parts = m.group(1).split()
+        kind, relfile, name = parts[0], parts[1], parts[2]
+        src = Source(relfile)
+        if kind == 'fn':
+            hits = find_fn(src, name, depth=0)
+            if len(hits) != 1:
+                raise LostAnchor('pin fn %s: %d matches' % (name, len(hits)))
+            first, o, c = hits[0]
+            txt = src.text[src.toks[first].start:src.toks[c].end]
+        elif kind == 'method':
+            ty, fname = name.split('::')
+            (first, o, c), _ = find_method(src, ty, fname)
+            txt = src.text[src.toks[first].start:src.toks[c].end]
+        elif kind == 'struct':
+            s0, e0 = find_struct(src, name)
+            txt = src.text[s0:e0]
+        elif kind == 'const':
+            s0, e0 = find_simple_item(src, 'const', name)
+            txt = src.text[s0:e0]
+        elif kind == 'region':
+            rest = m.group(1).split(None, 3)[3]
+            mm = re.match(r'/(.*?)/\s+/(.*?)/\s*$', rest)
+            if not mm:
+                raise ValueError('bad pin region ' + m.group(1))
+            if '::' in name:
+                ty, fname = name.split('::')
+                (first, o, c), _ = find_method(src, ty, fname)
+            else:
+                hits = find_fn(src, name, depth=0)
+                if len(hits) != 1:
+                    raise LostAnchor('pin region: fn %s: %d matches' % (name, len(hits)))
+                first, o, c = hits[0]
+            a = re.search(mm.group(1), src.text[src.toks[o].end:src.toks[c].start])
+            if not a:
+                raise LostAnchor('pin region %s: start /%s/ not found' % (name, mm.group(1)))
+            st = src.toks[o].end + a.start()
+            b = re.search(mm.group(2), src.text[st:src.toks[c].start], re.S)
+            if not b:
+                raise LostAnchor('pin region %s: end /%s/ not found' % (name, mm.group(2)))
+            txt = src.text[st:st + b.end()]
+        else:
+            raise ValueError('unknown pin kind ' + kind)
+        norm = re.sub(r'\s+', ' ', txt).strip()
+        pins.append({'kind': 'pin', 'file': relfile, 'name': '%s %s' % (kind, m.group(1).split(None, 2)[2]),
+                     'sha256': hashlib.sha256(norm.encode()).hexdigest(), 'rules_requested': [], 'rewrites': [], 'ghost_insertions': [],
+                     'line_start': 0, 'line_end': 0})
+        return ''
+    text = re.sub(r'^[ \t]*//@pin (.+?)[ \t]*$', pin, text, flags=re.M)
     for ch in parse_template(text):
         if ch[0] == 'text':
             out.append(ch[1])
@@ -1026,6 +1080,7 @@ def build_unit(template_path, out_path, report_path, defines=None):
     os.makedirs(os.path.dirname(out_path), exist_ok=True)
     with open(out_path, 'w') as f:
         f.write(result)
+    report.extend(pins)
     for it in report:
         it.pop('_src', None); it.pop('_consts_used', None)
     with open(report_path, 'w') as f:
